@@ -388,6 +388,57 @@ def real_any_roundtrip(u, var, host_q, pre, trees):
     return out
 
 
+def _host_element_node(u):
+    from xsdata.formats.dataclass.context import XmlContext
+    from xsdata.formats.dataclass.parsers.config import ParserConfig
+    from xsdata.formats.dataclass.parsers.nodes import ElementNode
+
+    ctx = XmlContext(models_package=u.modname)
+    return ElementNode(meta=ctx.build(u.classes["Root"]), attrs={}, ns_map={}, config=ParserConfig(), context=ctx, position=0)
+
+
+def _write_field(u, var, host_q, value):
+    """`<host>` + real convert_value(value, var) + `</host>` through the real writer, re-read by lxml"""
+    from xsdata.formats.dataclass.context import XmlContext
+    from xsdata.formats.dataclass.parsers.utils import PendingCollection
+    from xsdata.formats.dataclass.serializers.config import SerializerConfig
+    from xsdata.formats.dataclass.serializers.mixins import EventGenerator, XmlWriterEvent
+    from xsdata.formats.dataclass.serializers.writers import XmlEventWriter
+
+    if isinstance(value, PendingCollection):
+        value = value.evaluate()
+    gen = EventGenerator(context=XmlContext(models_package=u.modname), config=SerializerConfig())
+
+    def events():
+        yield XmlWriterEvent.START, host_q
+        if value is not None:
+            yield from gen.convert_value(value, var, None)
+        yield XmlWriterEvent.END, host_q
+
+    buf = io.StringIO()
+    XmlEventWriter(config=SerializerConfig(), output=buf, ns_map={}).write(events())
+    return strip_ns(G.xml_tree(buf.getvalue().encode()))
+
+
+def real_field_roundtrip(u, var, host_q, trees):
+    """real WildcardNode per tree, real ElementNode.bind_wild_var for every value, real convert_value + writer"""
+    node = _host_element_node(u)
+    params: dict = {}
+    for t in trees:
+        node.bind_wild_var(params, var, var.qname, real_wild_value(var, t))
+    return _write_field(u, var, host_q, params.get(var.name))
+
+
+def real_mixed_roundtrip(u, var, host_q, text, trees):
+    """real WildcardNode per tree, real bind_mixed_objects + bind_wild_text, real convert_value + writer"""
+    node = _host_element_node(u)
+    params: dict = {}
+    objects = [(var.qname, real_wild_value(var, t)) for t in trees]
+    node.bind_mixed_objects(params, var, objects)
+    node.bind_wild_text(params, var, text, None)
+    return _write_field(u, var, host_q, params.get(var.name))
+
+
 def real_tree_parse_events(tree):
     from xsdata.formats.dataclass.parsers.mixins import EventsHandler
     from xsdata.formats.dataclass.parsers.tree import TreeParser
